@@ -341,6 +341,7 @@ class ModuleNormaliser:
         self.inlined = {}
         self.counter = itertools.count()
         self.defs = {}            # qualname -> (FunctionDef, owner node, class name or None)
+        self.class_bases = {c.name: [b.id for b in c.bases if isinstance(b, ast.Name)] for c in ast.walk(tree) if isinstance(c, ast.ClassDef)}
         self._collect(tree, "", None)
 
     def _collect(self, node, prefix, cls):
@@ -451,10 +452,19 @@ class ModuleNormaliser:
                 same_name = [k for k in self.defs if k.split(".")[-1] == f.attr and "." in k]
                 if len(same_name) != 1:
                     return None
-                # class may be nested deeper in prefix: search by suffix
-                for k in self.defs:
-                    if (k == cand or k.endswith("." + cand)) and self.is_new_function(k):
-                        return k, f.value.id
+                # the class itself, then its base classes defined in this module (inherited helper)
+                chain, todo = [], [cls]
+                while todo:
+                    c_ = todo.pop(0)
+                    if c_ in chain:
+                        continue
+                    chain.append(c_)
+                    todo.extend(self.class_bases.get(c_, []))
+                for c_ in chain:
+                    cand = c_ + "." + f.attr
+                    for k in self.defs:
+                        if (k == cand or k.endswith("." + cand)) and self.is_new_function(k):
+                            return k, f.value.id
         return None
 
     def _bind(self, helper, call, recv):
@@ -841,6 +851,10 @@ class ModuleNormaliser:
                     continue
                 st = a[0]
                 if not is_pure(st.value):
+                    if self._forward_single_use(fn, st, v):
+                        self.log.append(f"{q}: single-use temporary `{v}` forwarded into the next statement")
+                        progress = True
+                        break
                     continue
                 fv = free_names(st.value)
                 if v in fv:
@@ -878,6 +892,69 @@ class ModuleNormaliser:
                 break
             if not progress:
                 break
+
+    def _forward_single_use(self, fn, st, v):
+        """`t = f(..)` (any call) used exactly once, in the statement that follows immediately: put the call where t is
+        used, provided everything that statement evaluates before that point is pure and is not read through the
+        call's receiver (same assumption as for propagation: a method changes its receiver's subtree only)."""
+        if not isinstance(st.value, ast.Call):
+            return False
+        uses = [n for n in ast.walk(fn) if isinstance(n, ast.Name) and n.id == v and isinstance(n.ctx, ast.Load)]
+        if len(uses) != 1:
+            return False
+        block = self._block_of(fn, st)
+        if block is None:
+            return False
+        i = block.index(st)
+        if i + 1 >= len(block):
+            return False
+        nxt = block[i + 1]
+        if not isinstance(nxt, (ast.Assign, ast.Return, ast.Expr, ast.AugAssign)) or nxt.value is None or not any(u is uses[0] for u in ast.walk(nxt.value)):
+            return False
+        order, parents = [], {}
+
+        def dfs(n, par):
+            parents[id(n)] = par
+            order.append(n)
+            for ch in ast.iter_child_nodes(n):
+                dfs(ch, n)
+        dfs(nxt.value, None)
+        pos = [k for k, n in enumerate(order) if n is uses[0]][0]
+        anc, p_ = set(), parents[id(uses[0])]
+        while p_ is not None:
+            anc.add(id(p_))
+            p_ = parents[id(p_)]
+        if any(isinstance(a, (ast.Lambda, ast.ListComp, ast.SetComp, ast.DictComp, ast.GeneratorExp, ast.IfExp, ast.BoolOp)) for a in order if id(a) in anc):
+            return False
+        recv = None
+        if isinstance(st.value.func, ast.Attribute):
+            recv = " ".join(ast.unparse(st.value.func.value).split())
+        for n in order[:pos]:
+            if id(n) in anc:
+                continue
+            if isinstance(n, ast.Call) and not is_pure(n):
+                return False
+            if recv and isinstance(n, (ast.Attribute, ast.Subscript)):
+                k = " ".join(ast.unparse(n).split())
+                if k == recv or k.startswith(recv + ".") or k.startswith(recv + "["):
+                    return False
+        if isinstance(nxt, ast.Assign) and not all(is_pure(_loadify(t)) for t in nxt.targets):
+            return False
+        par = parents[id(uses[0])]
+        new = st.value
+        if par is None:
+            nxt.value = new
+        else:
+            for field, val in ast.iter_fields(par):
+                if val is uses[0]:
+                    setattr(par, field, new)
+                elif isinstance(val, list):
+                    for j, x in enumerate(val):
+                        if x is uses[0]:
+                            val[j] = new
+        block.remove(st)
+        ast.fix_missing_locations(nxt)
+        return True
 
     @staticmethod
     def _stable_between(fn, st, v, uses):
@@ -1100,6 +1177,31 @@ def split_parallel_assignments(tree):
         nonlocal count
         out = []
         for st in stmts:
+            if isinstance(st, ast.Assign) and len(st.targets) == 1 and isinstance(st.targets[0], (ast.Tuple, ast.List)) and is_pure(st.value) \
+                    and isinstance(st.value, (ast.Name, ast.Attribute)) and sum(isinstance(e, ast.Starred) for e in st.targets[0].elts) == 1 \
+                    and all(isinstance(e.value if isinstance(e, ast.Starred) else e, ast.Name) for e in st.targets[0].elts) \
+                    and not any(reads(st.value, e.value if isinstance(e, ast.Starred) else e) for e in st.targets[0].elts):
+                # head, *rest = X  ->  head = X[0]; rest = X[1:]   (X pure; the list/tuple type of `rest` is not observable through *rest)
+                elts = st.targets[0].elts
+                k = [i for i, e in enumerate(elts) if isinstance(e, ast.Starred)][0]
+                after = len(elts) - k - 1
+                for i, e in enumerate(elts):
+                    if i < k:
+                        v = ast.Subscript(value=clone(st.value), slice=ast.Constant(value=i), ctx=ast.Load())
+                        t = e
+                    elif i == k:
+                        up = ast.UnaryOp(op=ast.USub(), operand=ast.Constant(value=after)) if after else None
+                        v = ast.Subscript(value=clone(st.value), slice=ast.Slice(lower=ast.Constant(value=k) if k else None, upper=up, step=None), ctx=ast.Load())
+                        t = e.value
+                    else:
+                        v = ast.Subscript(value=clone(st.value), slice=ast.UnaryOp(op=ast.USub(), operand=ast.Constant(value=len(elts) - i)), ctx=ast.Load())
+                        t = e
+                    a = ast.Assign(targets=[t], value=v)
+                    ast.copy_location(a, st)
+                    ast.fix_missing_locations(a)
+                    out.append(a)
+                count += 1
+                continue
             if isinstance(st, ast.Assign) and len(st.targets) > 1 and is_pure(st.value) and all(isinstance(t, (ast.Name, ast.Attribute)) for t in st.targets) \
                     and not any(reads(st.value, t) for t in st.targets):
                 # chained assignment of a pure value: a = b = v  ->  a = v; b = v
